@@ -12,6 +12,9 @@ ENTROPY = ("rand::random", "curve25519_dalek::scalar::Scalar::random")
 ENTROPY_TAILS = ("fill_bytes", "next_u64", "next_u32", "random", "random_range", "random_bool", "try_fill_bytes")
 
 
+PRIVATE_GEN_CTORS = ("crypto::aes_rng::AesRng::new", "rand::rngs::thread::rng", "rand::rng", "rand::thread_rng", "::from_os_rng", "::from_entropy", "::try_from_os_rng")
+
+
 def is_entropy_call(t):
     names = callee_names(t)
     if not names:
@@ -65,6 +68,20 @@ def rule_entropy(S, res):
         for bi, t in b.calls():
             if bi in b.live_blocks() and is_entropy_call(t):
                 own[b.owner] += 1
+            elif bi in b.live_blocks() and is_rng_draw(t) is not None and t["args"][0]["k"] != "const":
+                # a draw from a generator that this function seeded privately (AesRng::new(), rand::rng(), ..)
+                gb = fg.backward(fg.operand_nodes(k, t["args"][0]), node_ok=lambda n: n[0] != "F" and fg.bodies[n[0]].owner == b.owner, edge_ok=lambda e: e.kind in ("copy", "ref", "base2field", "field2whole", "upvar"))
+                found = False
+                for n in gb:
+                    for e in fg.inn.get(n, ()):
+                        if e.kind == "call" and isinstance(e.info, dict) and any(any(x.endswith(c) for c in PRIVATE_GEN_CTORS) for x in (e.info.get("names") or [])):
+                            found = True
+                    bb = fg.bodies[n[0]]
+                    for cbi, ct in bb.calls():
+                        if ct["d"]["l"] == n[1] and not ct["d"]["pr"] and any(any(x.endswith(c) for c in PRIVATE_GEN_CTORS) for x in callee_names(ct)):
+                            found = True
+                if found:
+                    own[b.owner] += 1
     # entropy drawn in helper functions (no channel effects of their own) counts for the caller, so
     # moving `Delta(random())` into a helper stays silent
     from r7 import bodies_with_channel_effect
@@ -404,12 +421,70 @@ def pad_nodes(S):
     return set(reach.keys())
 
 
+def extended_components(S):
+    """message components plus the own containers message parts are stored into (push / &mut)."""
+    if getattr(S, "_ext_comp", None) is not None:
+        return S._ext_comp
+    fg = S.fg
+    all_comp = set()
+    for d in S.comp.values():
+        all_comp |= set(d.keys())
+
+    def ext_edge(e):
+        if e.src[0] == "F" or e.dst[0] == "F":
+            return False
+        if fg.bodies[e.src[0]].owner != fg.bodies[e.dst[0]].owner:
+            return False
+        if e.kind in ("alias_fb", "alias", "mutarg", "mutarg2"):
+            return True
+        return secmod.struct_edge(e)
+    S._ext_comp = set(fg.forward(list(all_comp), edge_ok=ext_edge, local=True, deep=True).keys())
+    return S._ext_comp
+
+
+INT_TYS = {"usize", "u8", "u16", "u32", "u64", "u128", "i32", "i64", "isize"}
+
+
+def pad_selected_by_peer(S, e, ext, msg_types):
+    """The Key/Label operand of this `pad ^ Delta` is looked up (get / index) with an index that a
+    peer chose (an integer carried in a message): the peer can have the same pad applied to both
+    values of the bit, and the XOR of the two results is Delta."""
+    fg = S.fg
+    b = fg.bodies[e.body]
+    if e.block is None or e.idx != "t":
+        return None
+    t = b.blocks[e.block]["t"]
+    for a in t.get("args", []):
+        if a["k"] == "const":
+            continue
+        ty = a["p"]["ty"].lstrip("&")
+        if ty not in (T_KEY, T_LABEL):
+            continue
+        back = fg.backward(fg.operand_nodes(e.body, a), node_ok=lambda x: x[0] == e.body,
+                           edge_ok=lambda e2: e2.kind in ("copy", "ref", "base2field", "field2whole") or (e2.kind == "call" and secmod.struct_edge(e2)))
+        locs = {x[1] for x in back}
+        for cbi, ct in b.calls():
+            cn = callee_names(ct)
+            tl = cn[-1].rsplit("::", 1)[-1] if cn else ""
+            if tl in ("get", "index", "get_mut", "index_mut", "get_unchecked") and ct["d"]["l"] in locs and len(ct["args"]) == 2 and ct["args"][1]["k"] != "const":
+                ib = fg.backward(fg.operand_nodes(e.body, ct["args"][1]), node_ok=lambda x: x[0] == e.body, edge_ok=lambda e2: e2.kind in ("copy", "cast", "ref", "base2field", "field2whole") or (e2.kind == "call" and secmod.struct_edge(e2)))
+                for x in ib:
+                    xt = S.node_ty(x).lstrip("&")
+                    if x in ext and xt in INT_TYS and any(xt in mt for mt in msg_types):
+                        return (cbi, x)
+    return None
+
+
 def rule_delta_declass(S, res):
     fg = S.fg
     pads = pad_nodes(S)
     all_comp = set()
     for d in S.comp.values():
         all_comp |= set(d.keys())
+    ext = extended_components(S)
+    import r1
+    msg_types = [r1.validated_types(s_)[1] or "" for s_ in S.recv_sites]
+    peer_pads = []
     seeds = []
     for k, b in engine_bodies(fg):
         for i, l in enumerate(b.locals):
@@ -456,6 +531,10 @@ def rule_delta_declass(S, res):
             # `bool & Delta -> Delta` and `Mac ^ Delta -> Key` do not
             for n in names:
                 if "BitXor<mpc::data_types::Delta>" in n and ("data_types::Key" in n or "data_types::Label" in n):
+                    pp = pad_selected_by_peer(S, e, ext, msg_types)
+                    if pp:
+                        peer_pads.append((e, pp))
+                        return True   # a pad the peer can have reused does not hide Delta
                     n_san["xor-with-own-key/label"] += 1
                     return False
         if e.kind == "bin" and e.info == "BitXor":
@@ -486,7 +565,11 @@ def rule_delta_declass(S, res):
         inst = "%s|%s" % (s.body.owner.rsplit("::", 1)[-1], lab)
         if hit:
             bad += 1
-            res.bad("R6.4", inst, "the global key Delta can reach the payload of %r without passing through a hash, the AEAD, the OT sender or an XOR with an own key/label" % lab, fl(s.sp),
+            extra = ""
+            if peer_pads:
+                pe, (pcb, pn) = peer_pads[0]
+                extra = " (the key/label pad at %s is looked up with an index taken from a message: a peer can have the same pad applied twice, and the XOR of the two results is Delta)" % where(fg.bodies[pe.body], pcb)
+            res.bad("R6.4", inst, "the global key Delta can reach the payload of %r without passing through a hash, the AEAD, the OT sender or an XOR with an own key/label%s" % (lab, extra), fl(s.sp),
                     witness=[fg.describe_edge(e) for e in fg.path_to(reach, hit[0])[-10:]])
         else:
             res.ok("R6.4", inst, fl(s.sp), "payload not reachable from Delta except through a sanitizer")
@@ -564,3 +647,88 @@ def rule_label_declass(S, res):
     res.floor("sends_checked_for_labels", n, 3)
     if not bad:
         res.ok("R6.4", "labels|all-sends", "", "own wire labels reach no payload except through garble::encrypt / key derivation or the select operator Label ^ Delta (%d select site(s))" % n_sel[0])
+
+
+def rule_placeholder_overwritten(S, res):
+    """R6.6: in the functions that create secrets (ENTROPY_FLOOR), a vector allocated with a constant
+    placeholder (`vec![false; n]`) and then filled from random data through `zip` is filled
+    completely: the length of the zip partner is computed from the same `n`.  `zip` stops at the
+    shorter side without complaint, so a partner sized from a different quantity (`l` instead of
+    `l + 3*RHO`) leaves placeholder (constant, publicly known) values in the secret."""
+    fg = S.fg
+    floor_owners = {"polytune::" + f for f in ENTROPY_FLOOR}
+    n = 0
+    undecided = 0
+    bad = 0
+    plain = lambda e: e.kind in ("copy", "ref", "base2field", "field2whole", "cast")
+    for k, b in engine_bodies(fg):
+        if b.owner not in floor_owners:
+            continue
+        # placeholder vectors: from_elem(const, N)
+        ph = {}
+        for bi, t in b.calls():
+            cn = callee_names(t)
+            if cn and cn[-1].endswith("vec::from_elem") and t["args"][0]["k"] == "const" and t["args"][1]["k"] != "const" and not t["d"]["pr"]:
+                ph[t["d"]["l"]] = t["args"][1]
+        if not ph:
+            continue
+        for bi, t in b.calls():
+            cn = callee_names(t)
+            if not cn or not cn[0].endswith("Iterator::zip") or len(t["args"]) != 2 or bi not in b.live_blocks():
+                continue
+            sides = []
+            for a in t["args"]:
+                if a["k"] == "const":
+                    sides.append(set())
+                    continue
+                back = fg.backward(fg.operand_nodes(k, a), node_ok=lambda x: x[0] == k, edge_ok=lambda e: plain(e) or (e.kind == "call" and (secmod.struct_edge(e) or ((e.info or {}).get("names") and e.info["names"][-1].rsplit("::", 1)[-1] in ("chunks_mut", "chunks_exact_mut", "deref_mut", "as_mut_slice", "iter_mut")))))
+                sides.append({x[1] for x in back})
+            for i in (0, 1):
+                vs = [v for v in ph if v in sides[i]]
+                if not vs:
+                    continue
+                # mutable traversal of the placeholder vector (chunks_mut / iter_mut)
+                ty = t["args"][i]["p"]["ty"] if t["args"][i]["k"] != "const" else ""
+                if "Mut<" not in ty and "&mut" not in ty:
+                    continue
+                v = vs[0]
+                other = sides[1 - i]
+                if v in other:
+                    continue
+                n += 1
+                nroot = {x[1] for x in fg.backward(fg.operand_nodes(k, ph[v]), node_ok=lambda x: x[0] == k, edge_ok=plain)}
+                named = [l for l in nroot if b.locals[l]["name"]]
+                # length expression of the partner: collect over a Range 0..E, or from_elem(_, E)
+                lens = []
+                for cbi, ct in b.calls():
+                    ccn = callee_names(ct)
+                    if ct["d"]["l"] not in other or not ccn:
+                        continue
+                    if ccn[-1].endswith("vec::from_elem") and ct["args"][1]["k"] != "const":
+                        lens.append(ct["args"][1])
+                    if ccn[0].rsplit("::", 1)[-1] in ("collect", "from_iter") and ct["args"] and ct["args"][0]["k"] != "const":
+                        ib = fg.backward(fg.operand_nodes(k, ct["args"][0]), node_ok=lambda x: x[0] == k, edge_ok=lambda e: plain(e) or (e.kind == "call" and secmod.struct_edge(e)) or e.kind == "agg")
+                        il = {x[1] for x in ib}
+                        for blk in b.blocks:
+                            for st in blk["s"]:
+                                if st["k"] == "assign" and st["p"]["l"] in il and st["r"]["k"] == "agg" and (st["r"].get("adt") or "").startswith("core::ops::range::Range") and len(st["r"]["ops"]) == 2 and st["r"]["ops"][1]["k"] != "const":
+                                    lens.append(st["r"]["ops"][1])
+                inst = "%s|%s" % (b.owner.rsplit("::", 1)[-1], b.locals[v]["name"] or "_%d" % v)
+                if not lens:
+                    undecided += 1
+                    continue
+                ok = False
+                for le in lens:
+                    eb = fg.backward(fg.operand_nodes(k, le), node_ok=lambda x: x[0] == k, edge_ok=lambda e: e.kind in ("copy", "ref", "cast", "bin", "un", "base2field", "field2whole", "call", "lcall"))
+                    if any(x[1] in nroot for x in eb):
+                        ok = True
+                if ok:
+                    res.ok("R6.6", inst, where(b, bi), "placeholder vector filled through zip with a partner whose length is computed from the vector's own length")
+                else:
+                    bad += 1
+                    res.bad("R6.6", inst, "`%s` is allocated with a constant placeholder of length `%s` and filled from random data through zip, but the zip partner's length is not computed from `%s`: zip stops at the shorter side, so placeholder (constant) entries can remain in the secret"
+                            % (b.locals[v]["name"] or "?", b.locals[named[0]]["name"] if named else "n", b.locals[named[0]]["name"] if named else "n"), where(b, bi), key="R6.6|%s|%s" % (b.owner.rsplit("::", 1)[-1], b.locals[v]["name"] or "?"))
+    res.count("placeholder_vectors_filled_through_zip", n)
+    res.count("placeholder_zip_partners_of_unknown_length", undecided)
+    if not bad:
+        res.ok("R6.6", "engine", "", "%d placeholder-initialised vectors in secret-creating functions are filled through zip; none with a partner sized from a different quantity" % n)
